@@ -90,9 +90,10 @@ Det3I(N) == N[1][1] * (N[2][2] * N[3][3] - N[2][3] * N[3][2])
           + N[1][3] * (N[2][1] * N[3][2] - N[2][2] * N[3][1])
 DetIsOne(A) == LET D == Den(A) IN D < 1000 /\ Det3I(IntMat(A, D)) = D * D * D
 
-IsRotation(A)  == MMul(A, MT(A)) = I3 /\ DetIsOne(A)
+UnitBounded(A) == \A i \in 1..3, j \in 1..3 : AbsI(A[i][j][1]) <= A[i][j][2]     \* entries of a rotation lie in [-1, 1]
+IsRotation(A)  == UnitBounded(A) /\ MMul(A, MT(A)) = I3 /\ DetIsOne(A)
 IsInverse(A, B) == MMul(A, B) = I3 /\ MMul(B, A) = I3
 \* entries small enough for the products above to stay below 2^31
-EntryOK(r)  == IsRat(r) /\ AbsI(r[1]) < 2000 /\ r[2] < 200
+EntryOK(r)  == IsRat(r) /\ AbsI(r[1]) < 2000 /\ r[2] < 100
 MatrixOK(A) == \A i \in 1..3, j \in 1..3 : EntryOK(A[i][j])
 =============================================================================
